@@ -11,15 +11,15 @@ open Ibx Ibx.Model.Pop3
 /-- the key under which a verb is registered in the model's `commands` -/
 def keyOf (v : Verb) : Bytes := ((commands.find? (·.2 == v)).map (·.1)).getD []
 
-/-- the model's `commands` has exactly the keys of the Go map literal (same order), all mapped to `true` -/
+/-- the model's `commands` has exactly the keys of the package's command set literal (same order), all mapped to `true` -/
 theorem commands_tie : Gen.Pop3.commandKeys = some (commands.map (·.1)) := by decide
 theorem commands_all_true : Gen.Pop3.commandVals.all (· == "true") = true := by decide
 /-- distinct keys ↦ distinct verbs: `verbOf` is the map lookup -/
 theorem commands_keys_nodup : (commands.map (·.1)).Nodup ∧ (commands.map (·.2)).Nodup := by decide
 
-/-- the `case` labels of `authorizationHandler` are the verbs `authH` treats specially; the rest is `default` -/
+/-- the `case` labels of the AUTHORIZATION handler's command table are the verbs `authH` treats specially; the rest is `default` -/
 theorem auth_cases_tie : Gen.Pop3.authCases = some (authCases.map keyOf, true) := by decide
-/-- the `case` labels of `transactionHandler` -/
+/-- the `case` labels of the TRANSACTION handler's command table -/
 theorem trans_cases_tie : Gen.Pop3.transCases = some (transCases.map keyOf, true) := by decide
 
 /-- every verb outside the case lists gets the `default` answer (-ERR out of sequence) and changes nothing -/
@@ -30,19 +30,21 @@ theorem trans_default (s : St) (v : Verb) (args : List Bytes) (h : v ∉ transCa
     transH s v args = .ok s .err [] := by
   cases v <;> simp [transCases] at h <;> rfl
 
-/-- CAPA is answered before the empty-command test and the command-set test; the loop runs while
-    `state != QUIT && sendError == nil` -/
-theorem loop_tests_tie : Gen.Pop3.loopTests = ["cmd == \"CAPA\"", "cmd == \"\"", "!commands[cmd]"] := by decide
-theorem loop_cond_tie : Gen.Pop3.loopCond = "ssn.state != QUIT && ssn.sendError == nil" := by decide
+/-- the command loop hands AUTHORIZATION and TRANSACTION to a handler(cmd, args) (found by that dispatch, not by name) -/
+theorem dispatch_states_tie : Gen.Pop3.dispatchStates = ["AUTHORIZATION", "TRANSACTION"] := by decide
 
-/-- `processDeletes` is called from the QUIT case of `transactionHandler` and nowhere else -/
-theorem process_deletes_tie : Gen.Pop3.processDeletesCalls = [("transactionHandler", "QUIT")] := by decide
-/-- `loadMailbox` is called from the PASS and APOP cases of `authorizationHandler` and nowhere else -/
-theorem load_mailbox_tie :
-    Gen.Pop3.loadMailboxCalls = [("authorizationHandler", "PASS"), ("authorizationHandler", "APOP")] := by decide
-/-- the package touches the store in two places only: GetMessages in loadMailbox, RemoveMessage in processDeletes -/
-theorem store_calls_tie :
-    Gen.Pop3.storeCalls = [("loadMailbox", "GetMessages"), ("processDeletes", "RemoveMessage")] := by decide
+/-- CAPA is answered before the empty-command test and the command-set test ($cmd = the command word the loop hands
+    to the handlers); the loop runs while `state != QUIT && sendError == nil` ($s = the session) -/
+theorem loop_tests_tie : Gen.Pop3.loopTests = ["$cmd == \"CAPA\"", "$cmd == \"\"", "!commands[$cmd]"] := by decide
+theorem loop_cond_tie : Gen.Pop3.loopCond = "$s.state != QUIT && $s.sendError == nil" := by decide
+
+/-- the package touches the store in two ways only, whatever the helpers in between are called: the mailbox is loaded
+    (GetMessages) from the PASS and APOP clauses of the AUTHORIZATION handler and nowhere else; messages are removed
+    (RemoveMessage) from the QUIT clause of the TRANSACTION handler and nowhere else — not from another clause, not
+    from the loop (idle timeout, EOF), not from a state change -/
+theorem store_reach_tie :
+    Gen.Pop3.storeReach = [("AUTHORIZATION", "PASS", "GetMessages"), ("AUTHORIZATION", "APOP", "GetMessages"),
+                           ("TRANSACTION", "QUIT", "RemoveMessage")] := by decide
 /-- every numeric argument is parsed with ParseInt(·, 10, 32) -/
 theorem parse_int_tie : Gen.Pop3.parseIntArgs = ["10,32"] := by decide
 
